@@ -1,3 +1,53 @@
-(* C09 -- theorems are added below as they are proved (see design-notes/C09.md). *)
+(* C09 -- Epoch sealing switches cleanly to the new validator set.
+   Statements only; proofs in proofs/AbftSeal.v AbftProcess.v (AbftSealWitness.v for the example). *)
 From Coq Require Import NArith List.
-From LV Require Import model.Abft model.AbftRun spec.AbftSpec.
+From LV Require Import model.VecIndex model.Abft model.AbftRun spec.AbftSpec
+  proofs.AbftSeal proofs.AbftProcess proofs.AbftSealWitness.
+Import ListNotations.
+Local Open Scope N_scope.
+
+(* When EndBlock returns a validator set, the instance is in the next epoch with exactly that set, no
+   decided frame, empty roots / confirmed marks / vector index / forkless-cause cache and a fresh election:
+   it is LITERALLY the state Orderer.Reset(epoch+1, validators) produces. *)
+Theorem C09_seal_is_reset : forall end_block es st f atr blk st',
+  on_frame_decided end_block es st f atr = (Ok (true, blk), st') ->
+  exists nv, b_seal blk = Some nv /\ b_frame blk = f /\ b_atropos blk = atr /\ st' = reset st (l_epoch st + 1) nv.
+Proof. exact seal_state. Qed.
+
+Theorem C09_reset_state : forall st ep nv,
+  let st' := reset st ep nv in
+  l_epoch st' = ep /\ l_vals st' = nv /\ l_ldf st' = 0 /\ l_roots st' = [] /\ l_conf st' = [] /\
+  l_idx st' = init (length nv) /\ l_fcc st' = [] /\ l_el st' = el_reset nv 1 /\ l_ctr st' = l_ctr st.
+Proof. exact reset_fields. Qed.
+
+(* an instance reset directly to that epoch and validator set is in the same state up to the counter of
+   speculative builds (which only names temporary events: C04_build_any_history) *)
+Theorem C09_reset_equivalence : forall st1 st2 ep nv, reset st1 ep nv = set_ctr (reset st2 ep nv) (l_ctr st1).
+Proof. exact reset_forgets. Qed.
+
+(* every Process call: the emitted blocks have consecutive frames starting at LastDecidedFrame+1, a sealing
+   block is the last block of the call (no further block of the old epoch), after it the epoch number is
+   one higher and no frame is decided -- so the next blocks are numbered from frame 1 -- and without a
+   seal epoch and validators are unchanged and LastDecidedFrame advanced by the number of blocks *)
+Theorem C09_process_blocks : forall cap end_block es st e r bl st',
+  elinv st -> process cap end_block es st e = (r, bl, st') -> call_post st bl st'.
+Proof. exact process_frames. Qed.
+
+(* the invariant [elinv] (election decides frame LastDecidedFrame+1) holds initially, after Reset, and is
+   re-established by every call (it is part of call_post) *)
+Theorem C09_elinv_genesis_reset : forall ep v st, elinv (genesis ep v) /\ elinv (reset st ep v).
+Proof. intros; split; reflexivity. Qed.
+
+(* non-vacuity: a run that seals (one validator, seal at frame 1, new validator 8) and then decides frame 1
+   of the new epoch; the trace specification holds on it *)
+Example C09_sealing_run :
+  match nth_error s_run 2 with Some (ObsP None bl 0 2) => sealed_last bl | _ => false end = true /\
+  match nth_error s_run 5 with Some (ObsP None bl 1 2) => map b_frame bl | _ => [] end = [1] /\
+  c02_trace (chk_start 1 s_vals) (combine s_ops s_run) = true.
+Proof. vm_compute. repeat split. Qed.
+
+Print Assumptions C09_seal_is_reset.
+Print Assumptions C09_reset_state.
+Print Assumptions C09_reset_equivalence.
+Print Assumptions C09_process_blocks.
+Print Assumptions C09_elinv_genesis_reset.
